@@ -527,6 +527,19 @@ class SymList:
             return self.entry(self.prefix_len + len(self.items) + i)
         raise OutOfReach("read of an abstract list entry")
 
+    def setitem(self, i, v):
+        """L[-1] = v : on an appended item directly; on the abstract prefix when it is known to be non-empty."""
+        if not (isinstance(i, int) and i == -1):
+            raise OutOfReach("write to an abstract list entry other than the last")
+        if self.items:
+            self.items[-1] = v
+            return
+        from .sym import cur
+        if cur().valid(self.prefix_len >= 1) is not True:
+            raise OutOfReach("write to the last entry of a possibly empty abstract list")
+        self.prefix_len = self.prefix_len - 1
+        self.items.append(v)
+
     def length(self):
         return self.prefix_len + len(self.items)
 
